@@ -459,6 +459,7 @@ pub fn plan(property: &str, tier: &str) -> Option<CheckSpec> {
             let n4 = b.add_gen(&g4, if quick { 0 } else { 1 }, &[false, true], &rules, 2_000_000);
             let n1 = n1 + n4;
             let n1 = n1 + n3;
+            b.add_batch(many_ids_programs(), false, false, &rules);
             rule_text = format!("bounded-exhaustive generated programs ({n1} single-actor + {n2} two-actor lock-step) x every placement of 1 atomic collector cycle at a ring-push boundary x both configurations; non-trivial: a collector cycle falls between the first and last queue command");
             bound_text = format!("<= {} spans, <= {} local spans, scope depth <= 2, <= {} operations; 1 cycle placed anywhere + final flush", g.max_spans, g.max_locals, g.max_len);
         }
